@@ -110,7 +110,7 @@ func OpParams(op *Op) ([]ParamDecl, []string) {
 			unmapped = append(unmapped, "parameter "+r.Name+": unresolved schema")
 			continue
 		}
-		prim, ok := specgen.PrimOf(&specgen.Schema{Type: rs.Type, Format: rs.Format})
+		prim, ok := specgen.PrimOf(&specgen.Schema{Type: rs.Type, Format: rs.Format, TimeFormat: rs.TimeFormat})
 		if !ok {
 			unmapped = append(unmapped, "parameter "+r.Name+": not a primitive")
 			continue
@@ -261,6 +261,13 @@ func drawLexeme(t *rapid.T, p specgen.Prim, label string) (string, string) {
 			sec := rapid.Int64Range(-62135596800+86400, 253402300799-86400).Draw(t, label+"_sec")
 			ns := rapid.SampledFrom([]int64{0, 0, 500000000, 123456789, 1}).Draw(t, label+"_ns")
 			off := rapid.SampledFrom([]int{0, 0, 3600, -7 * 3600, 5*3600 + 1800, -12 * 3600, 14 * 3600}).Draw(t, label+"_off")
+			if gl := specgen.GoLayout(p.Layout()); gl != "" && p.Layout() != "time.RFC3339" {
+				tm := time.Unix(sec, 0).In(time.FixedZone("", off))
+				if p.Layout() != "time.RFC1123Z" {
+					tm = tm.UTC()
+				}
+				return tm.Format(gl), "canonical-random"
+			}
 			return time.Unix(sec, ns).In(time.FixedZone("", off)).Format(time.RFC3339Nano), "canonical-random"
 		}
 	}
